@@ -1,14 +1,16 @@
 package gosym
 
-// math/big.Float.  Two models, chosen per harness (HarnessOpts.FloatMode):
+// math/big.Float.  Three layers:
 //
-//   "real" (default): a big.Float is an exact real number (SMT Real term).
-//          Rounding to the mantissa width is ignored; used where rounding is
-//          not the subject (bancor formula layer, reward price) and stated as
-//          outside the claim.
-//   "fp":  a big.Float of precision p is a FloatingPoint(fpEb, p) term with
-//          round-nearest-even, the big.Float default; used where rounding IS
-//          the subject (governance threshold).
+//   concrete: while every operand of an operation is a concrete number the
+//          operation is executed by Go's own big.Float (bit-exact: precision,
+//          rounding mode and accuracy as in the real program);
+//   "real" (default float mode for symbolic operands): a big.Float is an exact
+//          real number (SMT Real term).  Rounding to the mantissa width is
+//          ignored; used where rounding is not the subject (bancor formula
+//          layer, reward price, order prices) and stated as outside the claim;
+//   "fp":  a big.Float of precision p is a FloatingPoint(fpE, p) term with
+//          round-nearest-even; used where rounding IS the subject (C20).
 
 import (
 	"fmt"
@@ -18,14 +20,13 @@ import (
 )
 
 type bigFloat struct {
-	Prec uint  // fp mode: mantissa bits (0 = unset); real mode: informational
-	T    *Term // Real term (real mode) or FloatingPoint term (fp mode); nil = +0
-	FP   bool
+	Prec uint       // fp mode: mantissa bits (0 = unset); real mode: informational
+	T    *Term      // Real term (real mode) or FloatingPoint term (fp mode); nil = +0
+	FP   bool       // T is a FloatingPoint term
+	C    *big.Float // non-nil: the value is concrete; never mutated in place
 }
 
-const fpEb = 20
-
-func newBigFloatZero() value { return bigFloat{} }
+func newBigFloatZero() value { return bigFloat{C: new(big.Float)} }
 
 func RealConstRat(r *big.Rat) *Term {
 	t := &Term{Op: "const", S: RealSort, Val: new(big.Int).Set(r.Num()), size: 1}
@@ -105,12 +106,29 @@ func floatOf(v value) bigFloat {
 	return f
 }
 
+// concF wraps a concrete big.Float.
+func concF(c *big.Float) bigFloat { return bigFloat{Prec: c.Prec(), C: c} }
+
+// real returns the exact real value as a term.
 func (f bigFloat) real() *Term {
+	if f.C != nil {
+		if f.C.IsInf() {
+			panic(abortPath{"unsupported", "infinite big.Float"})
+		}
+		r, _ := f.C.Rat(nil)
+		if r == nil {
+			r = new(big.Rat)
+		}
+		return RealConstRat(r)
+	}
 	if f.T == nil {
 		return RealConstRat(new(big.Rat))
 	}
 	return f.T
 }
+
+// clone returns a mutable copy of a concrete float (same value, prec, mode).
+func cloneF(c *big.Float) *big.Float { return new(big.Float).Copy(c) }
 
 func setFloat(v value, f bigFloat) value {
 	p := v.(*value)
@@ -152,24 +170,27 @@ func registerBigFloat(e *Engine) {
 		if fpMode(fr) {
 			return newF(fpFromFloat64(x))
 		}
-		r, _ := new(big.Rat).SetString(new(big.Float).SetFloat64(x).Text('f', -1))
-		if r == nil {
-			r = new(big.Rat).SetFloat64(x)
-		}
-		return newF(bigFloat{Prec: 53, T: RealConstRat(r)})
+		return newF(concF(big.NewFloat(x)))
 	})
 	R("(*math/big.Float).SetPrec", func(fr *frame, a []value) value {
 		f := floatOf(a[0])
 		prec := uint(asInt64(a[1]))
+		if f.C != nil {
+			return setFloat(a[0], concF(cloneF(f.C).SetPrec(prec)))
+		}
 		if fpMode(fr) {
 			return setFloat(a[0], fpSetPrec(f, prec))
 		}
 		f.Prec = prec
 		return setFloat(a[0], f)
 	})
+	R("(*math/big.Float).SetMode", func(fr *frame, a []value) value { return a[0] })
 	R("(*math/big.Float).SetInt", func(fr *frame, a []value) value {
 		f := floatOf(a[0])
 		x := bigOf(a[1])
+		if x.IsConst() && f.C != nil {
+			return setFloat(a[0], concF(cloneF(f.C).SetInt(x.Val)))
+		}
 		if fpMode(fr) {
 			return setFloat(a[0], fpSetInt(fr, f, x))
 		}
@@ -178,6 +199,9 @@ func registerBigFloat(e *Engine) {
 	R("(*math/big.Float).SetInt64", func(fr *frame, a []value) value {
 		f := floatOf(a[0])
 		x, _ := intTerm(a[1])
+		if x.IsConst() && f.C != nil {
+			return setFloat(a[0], concF(cloneF(f.C).SetInt(x.Val)))
+		}
 		if fpMode(fr) {
 			return setFloat(a[0], fpSetInt(fr, f, x))
 		}
@@ -189,6 +213,9 @@ func registerBigFloat(e *Engine) {
 			panic(abortPath{"unsupported", "SetFloat64 of symbolic float64"})
 		}
 		f := floatOf(a[0])
+		if f.C != nil {
+			return setFloat(a[0], concF(cloneF(f.C).SetFloat64(x)))
+		}
 		if fpMode(fr) {
 			g := fpFromFloat64(x)
 			if f.Prec != 0 {
@@ -202,13 +229,19 @@ func registerBigFloat(e *Engine) {
 		f := floatOf(a[0])
 		p := a[1].(*value)
 		r := (*p).(bigRat)
+		if r.N.IsConst() && r.D.IsConst() && f.C != nil {
+			return setFloat(a[0], concF(cloneF(f.C).SetRat(new(big.Rat).SetFrac(r.N.Val, r.D.Val))))
+		}
 		if fpMode(fr) {
-			panic(abortPath{"unsupported", "big.Float.SetRat in fp mode"})
+			panic(abortPath{"unsupported", "big.Float.SetRat of a symbolic rational in fp mode"})
 		}
 		return setFloat(a[0], bigFloat{Prec: f.Prec, T: realBin("/", toReal(r.N), toReal(r.D))})
 	})
 	R("(*math/big.Float).Set", func(fr *frame, a []value) value {
 		f, x := floatOf(a[0]), floatOf(a[1])
+		if f.C != nil && x.C != nil {
+			return setFloat(a[0], concF(cloneF(f.C).Set(x.C)))
+		}
 		if fpMode(fr) {
 			g := x
 			if f.Prec != 0 && f.Prec != x.Prec {
@@ -216,20 +249,34 @@ func registerBigFloat(e *Engine) {
 			}
 			return setFloat(a[0], g)
 		}
-		return setFloat(a[0], bigFloat{Prec: f.Prec, T: x.T})
+		return setFloat(a[0], bigFloat{Prec: f.Prec, T: x.real()})
 	})
 	bin := func(op string) intrinsic {
 		return func(fr *frame, a []value) value {
 			z, x, y := floatOf(a[0]), floatOf(a[1]), floatOf(a[2])
+			if z.C != nil && x.C != nil && y.C != nil {
+				zc := cloneF(z.C)
+				switch op {
+				case "+":
+					zc.Add(x.C, y.C)
+				case "-":
+					zc.Sub(x.C, y.C)
+				case "*":
+					zc.Mul(x.C, y.C)
+				case "/":
+					if y.C.Sign() == 0 && x.C.Sign() == 0 {
+						panic(targetPanic{v: iface{t: types.Typ[types.String], v: "division of zero by zero or infinity by infinity"}, pos: callerPos(fr)})
+					}
+					zc.Quo(x.C, y.C)
+				}
+				return setFloat(a[0], concF(zc))
+			}
 			if fpMode(fr) {
-				return setFloat(a[0], fpBin(fr, op, z, x, y))
+				return setFloat(a[0], fpBin(fr, op, fpOf(z), fpOf(x), fpOf(y)))
 			}
 			if op == "/" {
-				if rz, ok := realIsConst(y.real()); ok && rz.Sign() == 0 {
-					panic(abortPath{"unsupported", "big.Float division by zero (Inf)"})
-				}
 				zero := RealConstRat(new(big.Rat))
-				if _, ok := realIsConst(y.real()); !ok && fr.i.decide(realCmp("=", y.real(), zero)) {
+				if fr.i.decide(realCmp("=", y.real(), zero)) {
 					panic(abortPath{"unsupported", "big.Float division by a possibly-zero value (Inf)"})
 				}
 			}
@@ -242,15 +289,43 @@ func registerBigFloat(e *Engine) {
 	R("(*math/big.Float).Quo", bin("/"))
 	R("(*math/big.Float).Neg", func(fr *frame, a []value) value {
 		z, x := floatOf(a[0]), floatOf(a[1])
+		if z.C != nil && x.C != nil {
+			return setFloat(a[0], concF(cloneF(z.C).Neg(x.C)))
+		}
 		if fpMode(fr) {
 			panic(abortPath{"unsupported", "big.Float.Neg in fp mode"})
 		}
 		return setFloat(a[0], bigFloat{Prec: z.Prec, T: realBin("-", RealConstRat(new(big.Rat)), x.real())})
 	})
+	R("(*math/big.Float).Sqrt", func(fr *frame, a []value) value {
+		z, x := floatOf(a[0]), floatOf(a[1])
+		if z.C != nil && x.C != nil {
+			if x.C.Sign() < 0 {
+				panic(targetPanic{v: iface{t: types.Typ[types.String], v: "square root of negative operand"}, pos: callerPos(fr)})
+			}
+			return setFloat(a[0], concF(cloneF(z.C).Sqrt(x.C)))
+		}
+		if fpMode(fr) {
+			panic(abortPath{"unsupported", "big.Float.Sqrt in fp mode"})
+		}
+		zero := RealConstRat(new(big.Rat))
+		xt := x.real()
+		if fr.i.decide(realCmp("<", xt, zero)) {
+			panic(targetPanic{v: iface{t: types.Typ[types.String], v: "square root of negative operand"}, pos: callerPos(fr)})
+		}
+		c := fr.i.ctx
+		s := c.Fresh("fsqrt", RealSort)
+		c.Constrain(realCmp("<=", zero, s))
+		c.Constrain(realCmp("=", realBin("*", s, s), xt))
+		return setFloat(a[0], bigFloat{Prec: z.Prec, T: s})
+	})
 	R("(*math/big.Float).Cmp", func(fr *frame, a []value) value {
 		x, y := floatOf(a[0]), floatOf(a[1])
+		if x.C != nil && y.C != nil {
+			return x.C.Cmp(y.C)
+		}
 		if fpMode(fr) {
-			return fpCmp(x, y)
+			return fpCmp(fpOf(x), fpOf(y))
 		}
 		lt := realCmp("<", x.real(), y.real())
 		eq := realCmp("=", x.real(), y.real())
@@ -258,6 +333,9 @@ func registerBigFloat(e *Engine) {
 	})
 	R("(*math/big.Float).Sign", func(fr *frame, a []value) value {
 		x := floatOf(a[0])
+		if x.C != nil {
+			return x.C.Sign()
+		}
 		if fpMode(fr) {
 			panic(abortPath{"unsupported", "big.Float.Sign in fp mode"})
 		}
@@ -266,24 +344,49 @@ func registerBigFloat(e *Engine) {
 	})
 	R("(*math/big.Float).Int", func(fr *frame, a []value) value {
 		x := floatOf(a[0])
-		if fpMode(fr) {
-			panic(abortPath{"unsupported", "big.Float.Int in fp mode"})
+		var r *Term
+		acc := int8(0)
+		if x.C != nil {
+			v, ac := x.C.Int(nil)
+			r, acc = IntConst(v), int8(ac)
+		} else {
+			if fpMode(fr) {
+				panic(abortPath{"unsupported", "big.Float.Int in fp mode"})
+			}
+			r = truncToInt(x.real()) // accuracy not modelled for symbolic values
 		}
-		r := truncToInt(x.real())
 		var z value
 		if p, ok := a[1].(*value); ok && p != nil {
 			z = setBig(a[1], r)
 		} else {
 			z = bigCell(r)
 		}
-		return tuple{z, int8(0)} // accuracy not modelled
+		return tuple{z, acc}
+	})
+	R("(*math/big.Float).Float64", func(fr *frame, a []value) value {
+		x := floatOf(a[0])
+		if x.C != nil {
+			v, ac := x.C.Float64()
+			return tuple{v, int8(ac)}
+		}
+		panic(abortPath{"unsupported", "big.Float.Float64 of a symbolic value"})
+	})
+	R("(*math/big.Float).IsInf", func(fr *frame, a []value) value {
+		x := floatOf(a[0])
+		return x.C != nil && x.C.IsInf()
 	})
 	R("(*math/big.Float).String", opaqueString)
 	R("(*math/big.Float).Text", opaqueString)
-	R("(*math/big.Float).Prec", func(fr *frame, a []value) value { return floatOf(a[0]).Prec })
+	R("(*math/big.Float).Prec", func(fr *frame, a []value) value {
+		f := floatOf(a[0])
+		if f.C != nil {
+			return f.C.Prec()
+		}
+		return f.Prec
+	})
 
-	// ---- the repository's own math package: Pow/Exp/Log as an uninterpreted
-	// function over the reals with the facts listed in DESIGN.md §2.5
+	// ---- the repository's own math package: Pow as an uninterpreted function
+	// over the reals with the facts listed in DESIGN.md §2.5
 	mp := e.ModulePath + "/math"
 	R(mp+".Pow", func(fr *frame, a []value) value {
 		if fpMode(fr) {
@@ -311,4 +414,24 @@ func registerBigFloat(e *Engine) {
 	})
 }
 
-// ---- fp mode (filled in by fp.go)
+// fpOf lifts a concrete float into the FloatingPoint representation.
+func fpOf(f bigFloat) bigFloat {
+	if f.C == nil {
+		return f
+	}
+	if f.C.Prec() == 0 {
+		return bigFloat{FP: true}
+	}
+	x, acc := f.C.Float64()
+	if acc != big.Exact || f.C.Prec() > 53 {
+		if f.C.Sign() == 0 {
+			return bigFloat{Prec: f.C.Prec(), T: fpZero(f.C.Prec()), FP: true}
+		}
+		panic(abortPath{"unsupported", "fp mode: concrete big.Float not representable as float64"})
+	}
+	g := fpFromFloat64(x)
+	if f.C.Prec() != 53 {
+		g = fpSetPrec(g, f.C.Prec())
+	}
+	return g
+}
